@@ -271,6 +271,8 @@ def build(group, cfg, profile="kani", dest=None, log=None):
         t1_files = set(os.path.join(dest, f) for f in cfg.get("t1_files", []))
         for crate in cfg.get("t1_crates", []):
             t1_files.update(_rs_files(os.path.join(dest, crate, "src")))
+        excl = set(os.path.join(dest, f) for f in cfg.get("t1_exclude_files", []))
+        t1_files -= excl
         for f in sorted(t1_files):
             s = open(f).read()
             t, n = t1_rewrite(s)
